@@ -110,11 +110,31 @@ fn ascending_concat(frags: &[Frag], seq: u64) -> Vec<u8> {
 
 /// Feed one arrival history to a fresh assembler and to the model; compare every return value.
 fn run_history(ctx: &Ctx, history: &[Frag], all_frags: &[Frag], origin: &str) {
-    let mut asm = FragmentAssembler::new();
+    // an assembler however a caller may come by one (all three have the documented 30 s timeout), with or without
+    // a sweep before every arrival: the whole history takes microseconds, so nothing is ever due
+    static MADE: std::sync::atomic::AtomicUsize = std::sync::atomic::AtomicUsize::new(0);
+    let made = MADE.fetch_add(1, std::sync::atomic::Ordering::Relaxed);
+    let (mut asm, how) = match made % 3 {
+        0 => (FragmentAssembler::new(), "new()"),
+        1 => (FragmentAssembler::default(), "default()"),
+        _ => (FragmentAssembler::with_timeout(Duration::from_secs(30)), "with_timeout(30 s)"),
+    };
+    let sweeps = (made / 3) % 2 == 1;
     let mut model = Model::default();
     let mut completed: HashSet<u64> = HashSet::new();
     for (step, f) in history.iter().enumerate() {
         ctx.eval(1);
+        if sweeps {
+            let removed = asm.cleanup_expired();
+            if removed != 0 {
+                ctx.viol(
+                    "C09:live-sequence-expired:sweep-right-after-an-arrival",
+                    "cleanup_expired dropped a sequence microseconds after its latest fragment (documented timeout: 30 s)",
+                    json!({"origin": origin, "step": step, "removed": removed, "assembler_made_by": how}),
+                );
+                return;
+            }
+        }
         let got = match guarded(|| {
             if f.header {
                 asm.start_fragment(f.seq, f.id, None, f.data.clone())
